@@ -168,6 +168,9 @@ INTS = ["0", "1", "-1", "2", "-2", "7", "42", "-300", "1180591620717411303424", 
 FLOATS = ["0.0", "1.5", "-0.25", "2.0", "100.0", "0.001", "-3.75", "1e-05", "12345.678", "1e+16", "0.1", "-2.5e-07"]
 STRS = ["", "a", "hello", "x y", "123", "True", "a=b", "ü", "1.5", "none", "[1, 2]", "a,b"]
 PATHS = ["a", "a/b", "/tmp/x.txt", "..", "rel/dir/file", "x y/z"]
+# Literal choice sets, falsy members (0, '') included
+LITS = [{"k": "lit", "choices": ["a", "b", "cc"]}, {"k": "lit", "choices": [1, 2, 30]}, {"k": "lit", "choices": ["x", 5]},
+        {"k": "lit", "choices": [0, 1, 2]}, {"k": "lit", "choices": ["", "a"]}, {"k": "lit", "choices": [-1, 0]}]
 
 
 def rand_item_type(rng):
@@ -183,8 +186,7 @@ def rand_type(rng, allow_lit=True):
     if r < 0.42:
         t = rand_item_type(rng)
         if allow_lit and rng.random() < 0.12:
-            t = rng.choice([{"k": "lit", "choices": ["a", "b", "cc"]}, {"k": "lit", "choices": [1, 2, 30]},
-                            {"k": "lit", "choices": ["x", 5]}])
+            t = rng.choice(LITS)
         return t
     if r < 0.55:
         return {"k": "list", "item": rand_item_type(rng)}
